@@ -124,6 +124,10 @@ def sameWorkspace(link, sharePath):
         else:
             return False
         return os.path.samefile(dst, sharePath)
+    except FileNotFoundError:
+        # The workspace (or what it points to) vanished while we looked at it.
+        # Either way it does not use sharePath.
+        return False
     except OSError as e:
         raise BuildError("Error inspecting workspace: " + str(e))
 
